@@ -94,4 +94,4 @@ META = dict(
     technique="runtime monitoring: generator-derived reference traversal + byte-offset body oracle + ASan/UBSan",
 )
 
-CFG["rule"] += (" " + 'Additions: for documents deeper than the limit the descend action ignores the failed traverse half of the time (aws_xml_parse must still fail, no further callback); stage asan_latin1; stages mt_tsan/mt_rel; stale aws_last_error()/errno.')
+CFG["rule"] += (" " + 'Additions: for documents deeper than the limit the descend action ignores the failed traverse half of the time (aws_xml_parse must still fail, no further callback); stage asan_latin1; stages mt_tsan/mt_rel; stale aws_last_error()/errno. Every 64th case is a chain of 30-1100 same-named elements (some with attributes, <ab> elements in between), descended L levels and then skipped or read as body with options.max_depth default or raised; the body extent is known by construction, nothing inside may be reported and the following sibling must be.')
